@@ -252,14 +252,17 @@ the layout: the out-of-line entries of IFD0 and those of the directories its poi
 a value tag lies inside the file, the 4 MiB limit and the read window; a pointer (0x8769 / 0x8825 in IFD0) leads to a
 `FlatDir`; the extents of any two different tags (a value's bytes, a pointer's directory) do not overlap; at most one
 pointer of each kind; the children of a pointer belong to W; at most 83 tags are pending at once.  `DirOK` is the same for
-IFD0 itself.  Then every read DecodeTiff makes — in IFD0, the Exif and the GPS directory, in whatever order the offsets
+IFD0 itself; IFD0 may have a successor (IFD1, the thumbnail directory of a camera file): its next-directory pointer is
+either 0 or lies after IFD0 and away from every pending value (`IsStubEntry`, `IsStub`) — the reader queues it, seeks
+to it and reads nothing of it.  Then every read DecodeTiff makes — in IFD0, the Exif and the GPS directory, in whatever order the offsets
 put them — succeeds and returns exactly F[t.off, t.off + t.size). -/
 theorem C03_nested_tiff_exact (tb : Tables) (F : Bytes) (buffered : Bool) (h : Hdr) (cnt : Nat) (r' : R) (e : Option ErrKind)
     (W : Tag → Prop) (hsmall : F.length < 2 ^ 32)
     (w : World F (4 * 1024 * 1024) (if buffered then bufioSize else scratchSize) W)
     (hroot : DirOK F { off := 0, base := 0, order := h.order, typ := h.firstIfdType, idx := 0 } h.firstIfd cnt (4 * 1024 * 1024)
       (if buffered then bufioSize else scratchSize) (extent F))
-    (hrootW : ∀ x, IsEntry F { off := 0, base := 0, order := h.order, typ := h.firstIfdType, idx := 0 } h.firstIfd cnt x → W x)
+    (hrootW : ∀ x, IsEntry F { off := 0, base := 0, order := h.order, typ := h.firstIfdType, idx := 0 } h.firstIfd cnt x ∨
+      IsStubEntry F { off := 0, base := 0, order := h.order, typ := h.firstIfdType, idx := 0 } h.firstIfd cnt x → W x)
     (hres : decodeTiff tb F buffered h = .ok (r', e)) : Coh F r' ∧ Exact tb { imageType := h.imageType } F r' :=
   let hn := decodeTiff_nested tb F buffered h cnt r' e W hsmall w hroot hrootW hres
   ⟨hn.1, hn.2.1⟩
@@ -332,7 +335,7 @@ theorem nWorld : World nF (4 * 1024 * 1024) bufioSize (fun x => x ∈ [nM, nP, n
   · intro x hx
     rcases hmem x hx with rfl | rfl | rfl
     · exact Or.inl ⟨by decide, by decide, by decide, by decide, by decide, by decide⟩
-    · exact Or.inr ⟨⟨rfl, rfl, Or.inr rfl⟩, nFlat⟩
+    · exact Or.inr (Or.inl ⟨⟨rfl, rfl, Or.inr rfl⟩, nFlat⟩)
     · exact Or.inl ⟨by decide, by decide, by decide, by decide, by decide, by decide⟩
   · intro x y hx hy hne
     unfold DisjS
@@ -359,7 +362,7 @@ theorem nWorld : World nF (4 * 1024 * 1024) bufioSize (fun x => x ∈ [nM, nP, n
     rw [hpP, hqP]
 
 theorem nRootOK : DirOK nF sampleIfd 8 2 (4 * 1024 * 1024) bufioSize (extent nF) := by
-  refine ⟨by decide, by decide, by decide +kernel, by decide, by decide, ?_, ?_, fun _ => by decide +kernel⟩
+  refine ⟨by decide, by decide, by decide +kernel, by decide, by decide, ?_, ?_, fun _ => ⟨0, by decide +kernel, Or.inl rfl⟩⟩
   · intro k t hk h
     rcases nRootEntries k t hk h with rfl | rfl
     · exact ⟨fun hf => by simp [nM, Tag.isEmbedded, Tag.size, typeSize] at hf, fun _ => ⟨by decide, by rw [nExtM]; decide⟩⟩
@@ -375,18 +378,106 @@ theorem nRootOK : DirOK nF sampleIfd 8 2 (4 * 1024 * 1024) bufioSize (extent nF)
       simp only [Outcome.ok.injEq, Option.some.injEq] at h h'
       rw [← h, ← h', nExtM, nExtP]; decide
 
+theorem nRootW : ∀ x, IsEntry nF sampleIfd 8 2 x ∨ IsStubEntry nF sampleIfd 8 2 x → x ∈ [nM, nP, nL] := by
+  intro x hx
+  rcases hx with ⟨k, hk, he, _⟩ | ⟨_, nx, hnz, hu, _⟩
+  · rcases nRootEntries k x hk he with rfl | rfl <;> simp
+  · have h0 : u32 sampleIfd.order ((nF.drop (8 + 2 + 12 * 2)).take 4) = .ok 0 := by decide +kernel
+    rw [h0] at hu
+    simp only [Outcome.ok.injEq] at hu
+    exact absurd hu.symm hnz
+
 /-- the sample meets every hypothesis of `C03_nested_tiff_exact` -/
 example : World nF (4 * 1024 * 1024) bufioSize (fun x => x ∈ [nM, nP, nL]) ∧
     DirOK nF sampleIfd 8 2 (4 * 1024 * 1024) bufioSize (extent nF) ∧
-    (∀ x, IsEntry nF sampleIfd 8 2 x → x ∈ [nM, nP, nL]) := by
-  refine ⟨nWorld, nRootOK, ?_⟩
-  intro x hx
-  obtain ⟨k, hk, he, _⟩ := hx
-  rcases nRootEntries k x hk he with rfl | rfl <;> simp
+    (∀ x, IsEntry nF sampleIfd 8 2 x ∨ IsStubEntry nF sampleIfd 8 2 x → x ∈ [nM, nP, nL]) := ⟨nWorld, nRootOK, nRootW⟩
 
 /-- and the model run on it makes exactly two reads, Make then LensModel, each with the bytes at its offset -/
 example : readsOf (decodeTiff sampleTb nF true { order := .little, firstIfd := 8, firstIfdType := ifd0, exifLength := 0, imageType := 0 })
     = [(nM, some [67, 97, 110, 111, 110, 0]), (nL, some [82, 70, 32, 53, 48, 109, 109, 0])] := by decide +kernel
+
+/-! non-vacuity of the IFD1 case: a 38-byte TIFF whose IFD0 {Make "Canon" at 26} has a successor directory (IFD1, empty)
+at 32.  The reader queues a pointer for IFD1 and only seeks to it; the layout admits that pointer (`IsStub`). -/
+
+def jF : Bytes :=
+  [73, 73, 42, 0, 8, 0, 0, 0,
+   1, 0,
+   0x0f, 0x01, 2, 0, 6, 0, 0, 0, 26, 0, 0, 0,
+   32, 0, 0, 0,
+   67, 97, 110, 111, 110, 0,
+   0, 0, 0, 0, 0, 0]
+def jM : Tag := { off := 26, count := 6, id := 271, typ := 2, ifd := 1, idx := 0, order := .little }
+def jS : Tag := stubOf sampleIfd 32
+theorem jE0 : entryAt sampleIfd ((jF.drop (8 + 2)).take (1 * 12)) 0 = .ok (some jM) := by decide +kernel
+theorem jNext : u32 sampleIfd.order ((jF.drop (8 + 2 + 12 * 1)).take 4) = .ok 32 := by decide +kernel
+theorem jExtM : extent jF jM = 6 := by decide +kernel
+theorem jExtS : extent jF jS = 6 := by decide +kernel
+
+theorem jRootEntries : ∀ k t, k < 1 → entryAt sampleIfd ((jF.drop (8 + 2)).take (1 * 12)) k = .ok (some t) → t = jM := by
+  intro k t hk h
+  have : k = 0 := by omega
+  subst this
+  rw [jE0] at h; simp only [Outcome.ok.injEq, Option.some.injEq] at h; exact h.symm
+
+theorem jWorld : World jF (4 * 1024 * 1024) bufioSize (fun x => x ∈ [jM, jS]) := by
+  have hmem : ∀ x, x ∈ [jM, jS] → x = jM ∨ x = jS := by intro x hx; simpa using hx
+  have hpos : ∀ x, x ∈ [jM, jS] → 0 < extent jF x := by
+    intro x hx
+    rcases hmem x hx with rfl | rfl
+    · rw [jExtM]; decide
+    · rw [jExtS]; decide
+  refine ⟨?_, ?_, ?_, ?_, cap_of_list jF [jM, jS] (by decide) _ (fun x hx => hx) hpos⟩
+  · intro x hx
+    rcases hmem x hx with rfl | rfl
+    · exact Or.inl ⟨by decide, by decide, by decide, by decide, by decide, by decide⟩
+    · exact Or.inr (Or.inr ⟨⟨rfl, rfl, rfl⟩, by decide, by decide⟩)
+  · intro x y hx hy hne
+    unfold DisjS
+    rcases hmem x hx with rfl | rfl <;> rcases hmem y hy with rfl | rfl <;>
+      first
+      | exact absurd rfl hne
+      | (simp only [jExtM, jExtS]; decide)
+  · intro p hp hip c hc
+    rcases hmem p hp with rfl | rfl
+    · exact absurd hip.1 (by decide)
+    · exact absurd hip.2.2 (by decide)
+  · intro p q hp hq hip hiq _
+    rcases hmem p hp with rfl | rfl
+    · exact absurd hip.1 (by decide)
+    · exact absurd hip.2.2 (by decide)
+
+theorem jRootOK : DirOK jF sampleIfd 8 1 (4 * 1024 * 1024) bufioSize (extent jF) := by
+  refine ⟨by decide, by decide, by decide +kernel, by decide, by decide, ?_, ?_, fun _ => ⟨32, jNext, Or.inr ⟨by decide, ?_, ?_⟩⟩⟩
+  · intro k t hk h
+    rw [jRootEntries k t hk h]
+    exact ⟨fun hf => by simp [jM, Tag.isEmbedded, Tag.size, typeSize] at hf, fun _ => ⟨by decide, by rw [jExtM]; decide⟩⟩
+  · intro k k' t t' hk hk' hne
+    omega
+  · show 0 < extent jF jS
+    rw [jExtS]; decide
+  · intro k t hk h _
+    rw [jRootEntries k t hk h]
+    show DisjS (extent jF) jS jM
+    unfold DisjS
+    rw [jExtM, jExtS]; decide
+
+theorem jRootW : ∀ x, IsEntry jF sampleIfd 8 1 x ∨ IsStubEntry jF sampleIfd 8 1 x → x ∈ [jM, jS] := by
+  intro x hx
+  rcases hx with ⟨k, hk, he, _⟩ | ⟨_, nx, _, hu, rfl⟩
+  · rw [jRootEntries k x hk he]; simp
+  · rw [jNext] at hu
+    simp only [Outcome.ok.injEq] at hu
+    rw [← hu]; simp [jS]
+
+/-- the IFD1 sample meets every hypothesis of `C03_nested_tiff_exact`, with a non-zero next-directory pointer -/
+example : World jF (4 * 1024 * 1024) bufioSize (fun x => x ∈ [jM, jS]) ∧
+    DirOK jF sampleIfd 8 1 (4 * 1024 * 1024) bufioSize (extent jF) ∧
+    (∀ x, IsEntry jF sampleIfd 8 1 x ∨ IsStubEntry jF sampleIfd 8 1 x → x ∈ [jM, jS]) ∧
+    IsStubEntry jF sampleIfd 8 1 jS := ⟨jWorld, jRootOK, jRootW, rfl, 32, by decide, jNext, rfl⟩
+
+/-- and the model run on it makes exactly one read (Make); IFD1 is sought to, nothing of it is read -/
+example : readsOf (decodeTiff sampleTb jF true { order := .little, firstIfd := 8, firstIfdType := ifd0, exifLength := 0, imageType := 0 })
+    = [(jM, some [67, 97, 110, 111, 110, 0])] := by decide +kernel
 
 /-- **Streaming = random access (the refinement).**  `parseTagV` is the field-parser layer written as a pure function of
 the record so far, the tag and the bytes of its value (generated from the model's own parsers and proved equal to them,
@@ -400,7 +491,8 @@ theorem C03_streaming_equals_random_access (tb : Tables) (F : Bytes) (buffered :
     (w : World F (4 * 1024 * 1024) (if buffered then bufioSize else scratchSize) W)
     (hroot : DirOK F { off := 0, base := 0, order := h.order, typ := h.firstIfdType, idx := 0 } h.firstIfd cnt (4 * 1024 * 1024)
       (if buffered then bufioSize else scratchSize) (extent F))
-    (hrootW : ∀ x, IsEntry F { off := 0, base := 0, order := h.order, typ := h.firstIfdType, idx := 0 } h.firstIfd cnt x → W x)
+    (hrootW : ∀ x, IsEntry F { off := 0, base := 0, order := h.order, typ := h.firstIfdType, idx := 0 } h.firstIfd cnt x ∨
+      IsStubEntry F { off := 0, base := 0, order := h.order, typ := h.firstIfdType, idx := 0 } h.firstIfd cnt x → W x)
     (hres : decodeTiff tb F buffered h = .ok (r', e)) :
     idealRun tb F { imageType := h.imageType } r'.parsed = .ok r'.ex :=
   (decodeTiff_nested tb F buffered h cnt r' e W hsmall w hroot hrootW hres).2.1.ref
@@ -428,7 +520,8 @@ theorem C03_software_end_to_end (tb : Tables) (F : Bytes) (buffered : Bool) (h :
     (w : World F (4 * 1024 * 1024) (if buffered then bufioSize else scratchSize) W)
     (hroot : DirOK F { off := 0, base := 0, order := h.order, typ := h.firstIfdType, idx := 0 } h.firstIfd cnt (4 * 1024 * 1024)
       (if buffered then bufioSize else scratchSize) (extent F))
-    (hrootW : ∀ x, IsEntry F { off := 0, base := 0, order := h.order, typ := h.firstIfdType, idx := 0 } h.firstIfd cnt x → W x)
+    (hrootW : ∀ x, IsEntry F { off := 0, base := 0, order := h.order, typ := h.firstIfdType, idx := 0 } h.firstIfd cnt x ∨
+      IsStubEntry F { off := 0, base := 0, order := h.order, typ := h.firstIfdType, idx := 0 } h.firstIfd cnt x → W x)
     (hres : decodeTiff tb F buffered h = .ok (r', e))
     (pre post : List Tag) (a : Tag) (hsplit : r'.parsed = pre ++ a :: post) (h0 : a.ifd = ifd0) (hid : a.id = 0x0131)
     (hemb : a.isEmbedded = false) (hasc : isASCII a = true) (hpost : ∀ t ∈ post, ¬(t.ifd = ifd0 ∧ t.id = 0x0131)) :
@@ -441,7 +534,8 @@ theorem C03_lensModel_end_to_end (tb : Tables) (F : Bytes) (buffered : Bool) (h 
     (w : World F (4 * 1024 * 1024) (if buffered then bufioSize else scratchSize) W)
     (hroot : DirOK F { off := 0, base := 0, order := h.order, typ := h.firstIfdType, idx := 0 } h.firstIfd cnt (4 * 1024 * 1024)
       (if buffered then bufioSize else scratchSize) (extent F))
-    (hrootW : ∀ x, IsEntry F { off := 0, base := 0, order := h.order, typ := h.firstIfdType, idx := 0 } h.firstIfd cnt x → W x)
+    (hrootW : ∀ x, IsEntry F { off := 0, base := 0, order := h.order, typ := h.firstIfdType, idx := 0 } h.firstIfd cnt x ∨
+      IsStubEntry F { off := 0, base := 0, order := h.order, typ := h.firstIfdType, idx := 0 } h.firstIfd cnt x → W x)
     (hres : decodeTiff tb F buffered h = .ok (r', e))
     (pre post : List Tag) (a : Tag) (hsplit : r'.parsed = pre ++ a :: post) (h0 : a.ifd = exifIFD) (hid : a.id = 0xa434)
     (hemb : a.isEmbedded = false) (hasc : isASCII a = true) (hpost : ∀ t ∈ post, ¬(t.ifd = exifIFD ∧ t.id = 0xa434)) :
@@ -458,10 +552,7 @@ example (r' : R) (e : Option ErrKind)
     rw [hres] at this; exact this
   have := C03_lensModel_end_to_end sampleTb nF true { order := .little, firstIfd := 8, firstIfdType := ifd0, exifLength := 0, imageType := 0 }
     2 r' e (fun x => x ∈ [nM, nP, nL]) (by decide) nWorld nRootOK
-    (by
-      intro x hx
-      obtain ⟨k, hk, he, _⟩ := hx
-      rcases nRootEntries k x hk he with rfl | rfl <;> simp)
+    nRootW
     hres [nM] [] nL (by rw [hp]; rfl) rfl rfl (by decide) (by decide) (by intro t ht; cases ht)
   rw [this]
   decide +kernel
@@ -490,7 +581,8 @@ theorem C03_software_unique (tb : Tables) (F : Bytes) (buffered : Bool) (h : Hdr
     (w : World F (4 * 1024 * 1024) (if buffered then bufioSize else scratchSize) W)
     (hroot : DirOK F { off := 0, base := 0, order := h.order, typ := h.firstIfdType, idx := 0 } h.firstIfd cnt (4 * 1024 * 1024)
       (if buffered then bufioSize else scratchSize) (extent F))
-    (hrootW : ∀ x, IsEntry F { off := 0, base := 0, order := h.order, typ := h.firstIfdType, idx := 0 } h.firstIfd cnt x → W x)
+    (hrootW : ∀ x, IsEntry F { off := 0, base := 0, order := h.order, typ := h.firstIfdType, idx := 0 } h.firstIfd cnt x ∨
+      IsStubEntry F { off := 0, base := 0, order := h.order, typ := h.firstIfdType, idx := 0 } h.firstIfd cnt x → W x)
     (hres : decodeTiff tb F buffered h = .ok (r', e))
     (a : Tag) (ha : IsEntry F { off := 0, base := 0, order := h.order, typ := h.firstIfdType, idx := 0 } h.firstIfd cnt a)
     (h0 : a.ifd = ifd0) (hid : a.id = 0x0131) (hasc : isASCII a = true)
